@@ -19,7 +19,8 @@ def _prove(name, hyps, goal, extra_axioms=(), timeout_ms=20000, with_axioms=True
     backend = "z3"
     for seed in (0, 3, 2, 1):
         s = z3.Solver()
-        s.set("timeout", timeout_ms)
+        s.set("rlimit", int(timeout_ms) * 4000)  # (deterministic budget, see solve.check)
+        s.set("timeout", max(8 * int(timeout_ms), 60000))
         s.set("random_seed", seed)
         if with_axioms:
             for a in spec.axioms():
